@@ -588,6 +588,14 @@ func runSequence(e *env, no int, avoid map[string]bool) {
 		s.r = saved
 		e.jwrite("Q", c.no, nil, "")
 	}
+	if no%4 == 3 && e.spec.Batch%2 == 1 && !e.aborted {
+		saved := s.r
+		s.r = vlib.NewRand(e.spec.Seed, fmt.Sprintf("C13/manysubs/%d", e.spec.Batch), uint64(no))
+		sizes := []int{1, 8, 63, 64, 65, 100, 300}
+		s.stepManySubs(sizes[(e.spec.Batch/2+no/4)%len(sizes)])
+		s.r = saved
+		e.jwrite("Q", c.no, nil, "")
+	}
 	steps := r.Range(5, 24)
 	for i := 0; i < steps && !e.aborted; i++ {
 		switch k := r.Intn(100); {
@@ -619,6 +627,7 @@ func runSequence(e *env, no int, avoid map[string]bool) {
 		e.jwrite("Q", c.no, nil, "")
 	}
 	s.finish()
+	c.stop()
 	c.mu.Lock()
 	c.closed = true
 	nrep := c.nAll
